@@ -547,6 +547,15 @@ def inventory():
                     continue
                 if kind in ("arith", "div", "rem") and ls.startswith("//"):
                     continue
+                if kind == "arith":
+                    # `T: Clone + Copy`, `impl Trait + 'a`: a sum of CamelCase names / lifetimes is a
+                    # trait bound, not arithmetic
+                    mm = re.search(r"([A-Za-z_]\w*)\s\+\s('?[A-Za-z_]\w*)\Z", src[max(0, m.start() - 40) : m.end() + 40][: 40 + (m.end() - m.start()) + 40])
+                    lft = re.search(r"([A-Za-z_]\w*)\s*\Z", src[max(0, m.start() - 40) : m.start() + 1])
+                    rgt = re.match(r"\s*[+\-*]\s('?[A-Za-z_]\w*)", src[m.start() + 1 :])
+                    if lft and rgt and src[m.start() + 1 : m.end()].strip().startswith("+") and lft.group(1)[0].isupper() \
+                            and (rgt.group(1)[0].isupper() or rgt.group(1)[0] == "'"):
+                        continue
                 # a loop is recorded as a loop, whichever keyword spells it (while / loop)
                 text = "loop" if kind == "loop" else " ".join(src[m.start() : m.end()].split())
                 sites.append((rel, owner(m.start()), kind, text))
